@@ -10,16 +10,3 @@ NOTES = ("Technique family: machine-checked proof in Lean 4. Each check = kernel
          "model + a correspondence run of the same model against the real Go code on every run (see DESIGN.md). "
          "fix: commits in /repo and recorded findings are listed in known_findings.json.")
 NOT_APPLICABLE = {}
-META = {
-    "C17": dict(
-        technique="Lean 4 refinement proof (ring buffer refines sliding-window spec, induction over op lists) + differential correspondence with the real market keeper",
-        design_ref="DESIGN.md §5 C17",
-        text="Kernel-checked: for every window size N>=1, accepted gap and finite op list from the empty store the model of "
-             "UpdatePriceList never panics/indexes out of range, refines a sliding-window specification (window = last N positive "
-             "samples since the last reset), publishes exactly floor(sum/N) when active, activates only after N positive samples, "
-             "a zero sample deactivates, inactive valuation is refused. The model is tied to the code by replaying generated sample "
-             "sequences on the real keeper and comparing every stored record field by field.",
-        note="Trusted: Lean kernel (axioms propext, Quot.sound only), the hand-written model's faithfulness as far as the "
-             "correspondence run exercises it, heights>0, fixed N. The band-oracle feed is represented by per-record effects.",
-    ),
-}
